@@ -44,6 +44,8 @@ def poly_run(ctx, wd, p, deg, maxpairs, what, invs, prop):
     res = tlc.run_tlc('PolyTrace', cfg, workdir=wd, env={'TRACE_FILE': tf}, timeout=3000, cont=True)
     ctx.add_tlc(res, f'PolyTrace[{what},p={p},deg<={deg}]')
     ctx.traces += len(evs)
+    if res.generated < len(evs):
+        raise tlc.TLCError(f'not all events were evaluated by TLC: {res.generated} < {len(evs)}')
     for e in evs:
         ctx.case((p, e['rep'], e['fn'], e['a'], e['b'], e['n']))
     if not res.ok and not res.all_violations:
